@@ -46,6 +46,37 @@ class Fates:
         sess = backend.session
         self._orig = sess.commit
         sess.commit = self._commit
+        # non-commit statements (SELECT / INSERT / UPDATE / PRAGMA ...): one of them can be made to fail
+        self.qfail = None          # index (since set_q) of the statement that raises OperationalError, once
+        self.qn = 0
+        self.qtrack = False
+        self.qlog = []             # (index, statement kind, backend call stack)
+        from sqlalchemy import event
+        event.listen(backend.engine, "before_cursor_execute", self._before_execute)
+
+    def set_q(self, qfail, track=True):
+        self.qfail, self.qn, self.qtrack, self.qlog = qfail, 0, track, []
+
+    def _before_execute(self, conn, cursor, statement, parameters, context, executemany):
+        if not self.qtrack:
+            return
+        from sqlalchemy.exc import OperationalError
+        idx = self.qn
+        self.qn += 1
+        kind = statement.lstrip().split(None, 1)[0].upper() if statement.strip() else "?"
+        self.qlog.append((idx, kind, self.site_from(sys._getframe(1))))
+        if self.qfail is not None and idx == self.qfail:
+            self.qfail = None
+            raise OperationalError(statement[:60], {}, Exception("injected transient error (statement)"))
+
+    def site_from(self, f):
+        names = []
+        while f is not None:
+            n = f.f_code.co_name
+            if f.f_code.co_filename.endswith("backends/db/__init__.py") and n not in ("wrapper", "wrapped", "with_session"):
+                names.append(n)
+            f = f.f_back
+        return ">".join(reversed(names)) or "?"
 
     def set(self, plan):
         self.plan = list(plan)
@@ -205,9 +236,10 @@ class World:
         finally:
             fates.set([])
 
-    def op_rcn(self, backend, fates, tree, sub, plan):
+    def op_rcn(self, backend, fates, tree, sub, plan, qfail=None, track=False):
         self.call_hash(backend, tree)
         fates.set(plan)
+        fates.set_q(qfail, track or qfail is not None)
         try:
             result_hash = backend.record_value(tree.r)
             t = self.tasks[tree.t]
@@ -223,6 +255,7 @@ class World:
             return 1
         finally:
             fates.set([])
+            fates.qtrack = False
 
     def dump(self, backend):
         """Tables of the database in model terms (rows about unknown hashes are reported as such)."""
@@ -307,6 +340,7 @@ def run_script(world, ops, retries, workdir, tag="c"):
     fates = None
     outs = []
     alive = False
+    last_q = []
     for op in ops:
         if op[0] == "new":
             if backend is not None:
@@ -344,7 +378,8 @@ def run_script(world, ops, retries, workdir, tag="c"):
             if op[0] == "val":
                 x = world.op_val(backend, fates, op[1], op[2])
             else:
-                x = world.op_rcn(backend, fates, op[1], op[2], op[3])
+                x = world.op_rcn(backend, fates, op[1], op[2], op[3], *(op[4:6]))
+                last_q[:] = list(fates.qlog)
             outs.append(x)
             if x == 1:
                 close_backend(backend)
@@ -352,7 +387,9 @@ def run_script(world, ops, retries, workdir, tag="c"):
                 alive = False
     if backend is None:
         backend = new_backend(dbfile, retries)
-    return outs, world.dump(backend), backend
+    d = world.dump(backend)
+    d["qlog"] = list(last_q)          # statements of the last record_call_node operation (when tracked)
+    return outs, d, backend
 
 
 def cq_ops(ops):
@@ -532,7 +569,7 @@ def make_scheduler(dbfile, retries=3):
     return s
 
 
-def sched_run(name, leaf_body, dbfile, plan=(), retries=3, trace=None):
+def sched_run(name, leaf_body, dbfile, plan=(), retries=3, trace=None, qfail=None, qtrack=False):
     """One execution of workload `name` on `dbfile` with commit fates `plan`.
     Returns (status, result, fates_log): status 'ok' | 'died'."""
     quiet()
@@ -541,6 +578,8 @@ def sched_run(name, leaf_body, dbfile, plan=(), retries=3, trace=None):
     fates = Fates(s.backend)
     fates.record_sites = True
     fates.set(plan)
+    fates.set_q(qfail, qtrack or qfail is not None)
+    s.rv_fates = fates
     if trace is not None:
         trace.attach(s)
     buf = io.StringIO()
@@ -554,6 +593,7 @@ def sched_run(name, leaf_body, dbfile, plan=(), retries=3, trace=None):
         return "died", f"{type(e).__name__}", fates.log, s
     finally:
         fates.set([])
+        fates.qtrack = False
 
 
 class Trace:
